@@ -136,6 +136,15 @@ theorem C02_opSave_unique (c : Collection) (dir : Option PPath) (d : Doc) (hwf :
 example : ∃ d, WF exProject ∧ opSave exProject none = .ok d :=
   ⟨_, wf_exProject, (C02_opSave_refines _ _ wf_exProject).trans (save_total _)⟩
 
+/-- an object referenced from several places (its key occurs once per path among the reachable objects)
+    is defined exactly once by the operational writer -/
+theorem C02_opSave_defined_exactly_once (c : Collection) (dir : Option PPath) (d : Doc) (hwf : WF c)
+    (hs : opSave c dir = .ok d) (k : Kind) (hk : k ≠ .tag) (key : String)
+    (hkey : key ∈ reachKeys c.trav k) : (defs d k).count key = 1 :=
+  C02_defined_exactly_once c dir d hwf ((C02_opSave_refines c dir hwf) ▸ hs) k hk key hkey
+example : (reachKeys exShared.trav .clipAnn).count "ca" = 2 ∧ ∃ d, WF exShared ∧ opSave exShared none = .ok d :=
+  ⟨by decide +kernel, _, exShared_wf, (C02_opSave_refines _ _ exShared_wf).trans (save_total _)⟩
+
 /-- every sequence's parent is listed before the sequence -/
 theorem C02_opSave_parent_first (c : Collection) (dir : Option PPath) (d : Doc) (hwf : WF c)
     (hs : opSave c dir = .ok d) : parentFirst d = true :=
